@@ -34,6 +34,15 @@ fn sketch(kind: &str, m: usize, chunks: &[Vec<u64>]) -> Vec<u64> {
             for c in chunks { if c.len() > 1 { s.sketch_slice(c).unwrap(); } else { for x in c { s.sketch(x).unwrap(); } } }
             s.get_signature().iter().map(|&x| x as u64).collect()
         }
+        // coarse registers (large b) and few of them: the lower bound of the registers becomes active after a few dozen items,
+        // so the pruning of SetSketch::sketch is exercised
+        "setsketch-b1.2" | "setsketch-b1.5" => {
+            let b = if kind == "setsketch-b1.2" { 1.2 } else { 1.5 };
+            let p = crate::setsketcher::SetSketchParams::new(b, m as u64, 20., 62);
+            let mut s = crate::setsketcher::SetSketcher::<u16, u64, FnvHasher>::new(p, bh());
+            for c in chunks { if c.len() > 1 { s.sketch_slice(c).unwrap(); } else { for x in c { s.sketch(x).unwrap(); } } }
+            s.get_signature().iter().map(|&x| x as u64).collect()
+        }
         "optdens" | "revoptdens" => {
             macro_rules! go { ($T:ident) => {{
                 let mut s = crate::densminhash::$T::<f64, u64, FnvHasher>::new(m, bh());
@@ -89,6 +98,20 @@ fn verif_replay_c04() {
     let thorough = std::env::var("VERIF_TIER").map(|t| t == "thorough").unwrap_or(false);
     let mut cases = 0u64;
     let sizes: &[usize] = if thorough { &[1, 2, 3, 8, 31, 64, 257] } else { &[2, 8, 64] };
+    for kind in ["setsketch-b1.2", "setsketch-b1.5"] {
+        for m in [8usize, 16] {
+            for n in [20usize, 100, 300, 1000] {
+                if !thorough && n > 300 { continue; }
+                for rep in 0..(if thorough { 6 } else { 2 }) {
+                    let items: Vec<u64> = (0..n as u64).map(|i| i + rep * 100_003 + (seed % 1000)).collect();
+                    cases += 1;
+                    let sd = seed ^ (cases * 0x9E37_79B9);
+                    progress(&serde_json::json!({"kind": kind, "m": m, "items": items, "seed": sd}));
+                    if let Some((o, e)) = case(kind, m, &items, sd) { out(true, serde_json::json!({"kind": kind, "m": m, "items": items, "seed": sd}), o, e, cases); return; }
+                }
+            }
+        }
+    }
     for kind in ["superminhash", "superminhash2", "setsketch", "optdens", "revoptdens"] {
         for &m in sizes {
             for n in [2usize, 3, 7, 40, 400, 3000] {
